@@ -227,7 +227,7 @@ def batchQuery (δ : Nat → Nat → K) (hsort : List (DN K) → List (DN K)) (K
 
 end
 
-/-! ### well-formed trees (hypothesis of `cover_query_exact`; evaluated on the real tree by the driver) -/
+/-! ### well-formed trees (hypothesis of `cover_query_exact_partial`; evaluated on the real tree by the driver) -/
 
 section
 variable [LE K] [DecidableLE K] [DecidableEq K]
